@@ -252,6 +252,16 @@ Definition check_spec (spec : arg) (obs : arg) : arg :=
 
 Definition last_arg (a : arg) : arg := last (arg_list a) (AL []).
 
+(* explicit EC parameters: a panic inside elliptic.CurveNameFromParameters (empty base point, F5) is
+   C16's finding, recorded by the harness in the oracle; it is not attributed to the key describers *)
+Definition is_panic_obs (a : arg) : bool := match a with AL [AZ 2%Z] => true | _ => false end.
+Definition ec_oracle_panics (e : arg) : bool :=
+  match e with AL [AZ 2%Z; _; _; _; inf] => is_panic_obs inf | _ => false end.
+Definition curve_matcher_panics (op : bytes) (oracle : arg) : bool :=
+  if bytes_eqb op (bs "ecparams") then ec_oracle_panics oracle
+  else if bytes_eqb op (bs "sec1") then match oracle with AL [_; _; _; _; inf] => is_panic_obs inf | _ => false end
+  else match oracle with AL [_; _; _; e] => ec_oracle_panics e | _ => false end.
+
 Definition check_C02 (op : bytes) (input impl : arg) : arg :=
   if bytes_eqb op (bs "int") || bytes_eqb op (bs "crypto") then AL []
   else if bytes_eqb op (bs "kdf") then
@@ -262,4 +272,5 @@ Definition check_C02 (op : bytes) (input impl : arg) : arg :=
     | _ => check_spec (last_arg input) (arg_nth 1 impl)
     end
   else if bytes_eqb op (bs "e2e") then check_spec (last_arg (arg_nth 1 input)) impl
+  else if curve_matcher_panics op (arg_nth 1 input) then AL []
   else check_spec (last_arg input) impl.
